@@ -205,6 +205,45 @@ def carries_barrier(prog, q, fn, op, depth=0, seen=None):
     return False
 
 
+def rule_OD6(rep, prog, q):
+    rid = rep.rule("C02-OD6", "same-thread async -> sync order: a push that finds the list already non-empty does not touch dq_state by itself, so it must wake the "
+                   "queue whenever dq_state shows no max QoS (no drain streak known to be under way - the first pusher may still be between publishing its item and "
+                   "marking the queue DIRTY); otherwise dq_state is still pristine when the pusher's next dispatch_sync tries the uncontended lock and the sync "
+                   "item overtakes the async item submitted before it", floor=9)
+    fn = prog.fn("_dispatch_queue_need_override")
+    rep.saw(fn)
+    mq = calls_named(fn, "_dispatch_queue_max_qos")
+    if len(mq) != 1:
+        rep.unknown(rid, "anchor vanished: _dispatch_queue_need_override does not call _dispatch_queue_max_qos once (%d)" % len(mq))
+    else:
+        for m in (0, 2, 4):
+            for qos in (0, 2, 5):
+                env = {mq[0].id: m, ("a", 1): qos}
+                r, env = concrete_walk(fn, env, lambda i: i.op == "ret")
+                v = ceval(fn, r.ops[0], {k_: v_ for k_, v_ in env.items() if not isinstance(v_, tuple)}) if r is not None and r.ops else None
+                want = (m == 0) or (m < qos)
+                rep.require(rid, v is not None and bool(v) == want, fn.file + ":" + str(fn.d.get("line")), fn.name, "need-override:%d:%d" % (m, qos),
+                            "_dispatch_queue_need_override(max_qos in dq_state = %d, pushed qos = %d) evaluates to %s, expected %s: %s"
+                            % (m, qos, v, want, "with no max QoS recorded a non-first pusher must wake the queue - this is what makes dq_state differ from its idle "
+                               "value before dispatch_async returns, so that the same thread's following dispatch_sync cannot take the uncontended fast path and "
+                               "run ahead of the async item" if m == 0 else "an override is needed exactly when the pushed QoS exceeds the recorded one"),
+                            sample={"max_qos": m, "qos": qos, "wake": want})
+    fn = prog.fn("_dispatch_lane_push")
+    rep.saw(fn)
+    no = calls_named(fn, "_dispatch_queue_need_override")
+    if not no:
+        rep.unknown(rid, "anchor vanished: _dispatch_lane_push does not consult _dispatch_queue_need_override")
+    wk = icalls_slot(prog, fn, "dq_wakeup") + calls_named(fn, ("_dispatch_queue_wakeup", "_dispatch_lane_wakeup"))
+    for c in no:
+        ctx = paths.PathCtx(fn)
+        ctx.truth[c.id] = True
+        res = paths.walk(fn, c, lambda i: False, avoid=lambda i: i in wk, ctx=ctx)
+        exits = [r for r in res if r[0] == "exit"]
+        rep.require(rid, not exits and bool(wk), c.loc, fn.name, "push-needs-override-without-wakeup",
+                    "_dispatch_lane_push can return without dx_wakeup although _dispatch_queue_need_override asked for one (path %s)" % (exits[0][3] if exits else None),
+                    sample={"wakeups": len(wk)})
+
+
 def rule_barrier_flag(rep, prog, q):
     """sync-style submissions to a width-1 queue always take the barrier path"""
     rid = rep.rule("C02-SB5", "the dc_flags reaching _dispatch_async_and_wait_recurse carry DC_FLAG_BARRIER whenever the queue's dq_width is 1 "
@@ -243,10 +282,17 @@ def run(rep, tier="quick", srcdir=None, only=None):
         rule_drain(rep, prog, q)
     if want("C02-SB5"):
         rule_barrier_flag(rep, prog, q)
+    if want("C02-OD6"):
+        rule_OD6(rep, prog, q)
     if want("C05-WR3"):
         # a parked dispatch_sync waiter must only be released by the real lock hand-off (shared with C05)
         from . import C05
         C05.rule_WR3(rep, ir.Program(build.facts_for(["shims/lock"], srcdir=srcdir)))
+    if want("C05-OD2"):
+        # an item handed to a drainer by dispatch_async_and_wait runs once: the waiter learns "already run remotely" from dsc_func == NULL, which must be
+        # stored before the wake-up - otherwise the woken caller runs the item a second time beside the drainer (shared with C05)
+        from . import C05
+        C05.rule_OD2(rep, prog, q)
     # a serial queue that is the TARGET of other queues stays serial only if every level of a hierarchy is acquired and released
     # level by level and the role bits that steer the hand-off follow the target (shared with C03)
     from . import C03
